@@ -8,7 +8,7 @@
    The registered state is [s_nodes]; [holders ns v] are the linked data nodes
    that hold volume v; [crit] is the property's criterion evaluated on it. *)
 From Coq Require Import List NArith Bool.
-From SW Require Import model.TopoLayout model.TopoMulti proof.TopoLayoutProofs proof.TopoLayoutMulti.
+From SW Require Import model.TopoLayout model.TopoMulti proof.TopoLayoutProofs proof.TopoLayoutMulti proof.TopoLayoutCollect.
 Import ListNotations.
 Local Open Scope N_scope.
 
@@ -103,6 +103,58 @@ Theorem c11_oversized_registration_recorded : forall c ns vi n l,
 Proof. exact oversized_registration_recorded. Qed.
 Print Assumptions c11_oversized_registration_recorded.
 
+(* ---------- the collector sweep and the size limit ----------
+   NodeImpl.CollectDeadNodeAndFullVolumes tests v.Size >= volumeSizeLimit (model:
+   c_limit <=? vi_size, the same test as VolumeLayout.isOversized) and
+   SetVolumeCapacityFull takes the vid out of writables.
+   Right after a sweep no volume that has a REGISTERED replica of size at or over
+   the limit is writable - on every history. *)
+Theorem c11_after_collect_registered_small : forall c, 1 <= c_copy c ->
+  forall es, wf_history es -> forall v,
+    writable (run c init (es ++ [ECollect])) v = true ->
+    forall n i, ginfo (s_nodes (run c init es)) n v = Some i -> vi_size i < c_limit c.
+Proof. exact after_collect_registered_small. Qed.
+Print Assumptions c11_after_collect_registered_small.
+
+(* The same about the sizes the servers last REPORTED ([sreported]: computed from
+   the events alone) does NOT hold for the code at full strength: an incremental
+   "new" message about a registered volume overwrites its registered size with 0
+   (finding 3), and the sweep only sees the registered size. *)
+Theorem c11_collect_enforces_reported_refuted : exists c, 1 <= c_copy c /\ 0 < c_limit c /\ ~ collect_enforces_reported c.
+Proof. exact (ex_intro _ cfg000 (conj (N.le_refl 1) (conj eq_refl collect_enforces_reported_refuted))). Qed.
+Print Assumptions c11_collect_enforces_reported_refuted.
+
+(* It holds for every vid outside the per-(server, vid) trigger: no server sent
+   an incremental "new" message for the vid while its own last reported size of it
+   was at or over the limit, without a full heartbeat or disconnect of that server since. *)
+Theorem c11_collect_enforces_reported_partial : forall c, 1 <= c_copy c ->
+  forall es, wf_history es -> forall v, trigger_clobber_size_v c es v = false ->
+    writable (run c init (es ++ [ECollect])) v = true ->
+    forall n sz, rsize (sreported es) n v = Some sz -> sz < c_limit c.
+Proof. exact collect_enforces_reported_partial. Qed.
+Print Assumptions c11_collect_enforces_reported_partial.
+
+Theorem c11_clobber_size_witness :
+  writable (run cfg000 init (clobber_size_history ++ [ECollect])) 1 = true /\
+  rsize (sreported clobber_size_history) 1 1 = Some 100 /\
+  trigger_clobber_size_v cfg000 clobber_size_history 1 = true /\
+  trigger_clobber_size_v cfg000 (clobber_size_history ++ [EFull 1 [vi 1 100 false]]) 1 = false.
+Proof. exact clobber_size_witness. Qed.
+Print Assumptions c11_clobber_size_witness.
+
+(* non-vacuity and the edge of the test: three writable volumes are reported at
+   limit-1, limit, limit+1; the sweep keeps the first and removes the other two *)
+Example c11_collect_boundary :
+  wf_history boundary_history /\
+  forallb (fun v => negb (trigger_clobber_size_v cfg000 boundary_history v)) [1; 2; 3] = true /\
+  (let s := run cfg000 init boundary_history in
+   writable s 1 = true /\ writable s 2 = true /\ writable s 3 = true) /\
+  (let s := run cfg000 init (boundary_history ++ [ECollect]) in
+   writable s 1 = true /\ writable s 2 = false /\ writable s 3 = false) /\
+  map (rsize (sreported boundary_history) 1) [1; 2; 3] = [Some 99; Some 100; Some 101].
+Proof. exact collect_boundary. Qed.
+Print Assumptions c11_collect_boundary.
+
 (* ---------- several layouts, DataNode objects, heartbeat streams (model/TopoMulti.v) ----------
    [m_lookup_exact mc] / [m_writable_sound mc]: the two clauses at full strength
    over ALL histories of the multi model, measured against the cluster state as
@@ -177,3 +229,12 @@ Example c11_multi_example :
                           trig_object_v multi_sample v || trig_clobber_v mc12 multi_sample v || trig_size_v mc12 multi_sample v)) [1; 2] = true.
 Proof. exact multi_sample_ok. Qed.
 Print Assumptions c11_multi_example.
+
+(* the sweep's crowded test (size > 0.9 * limit, below the limit) and the rule
+   crowded <= writables, at the edges *)
+Example c11_crowded_boundary :
+  let s := mrun mc1 minit crowded_history in
+  l_writ (lay (ms_lays s) 0) = [1; 2; 3] /\ mcrowded s 0 = [2; 3] /\
+  mcrowded (mrun mc1 minit (crowded_history ++ [MFull 1 [mi 1 90 false 0; mi 2 91 true 0; mi 3 100 false 0; mi 4 100 false 0]; MCollect])) 0 = [].
+Proof. exact crowded_boundary. Qed.
+Print Assumptions c11_crowded_boundary.
